@@ -59,6 +59,9 @@ CHECKS = {
  'C09': dict(cat='proof', tech='deductive: lock-invariant (INV-ID) contracts on get_request_id, HostConnection.borrow_connection/return_connection, Connection.process_msg, ResponseFuture._on_timeout (orphaning), the id-pool set-up slice of Connection.__init__, stream tracking in _query; frame scans of in_flight/request_ids/orphaned_request_ids',
              text='Each operation on the stream-id pool is verified for an arbitrary connection state satisfying INV-ID (symbolic free list, registered and orphaned ids): ids handed out are free, unique, within the protocol maximum; responses reach only the handler registered for their stream; orphaning keeps in_flight. Interleavings are covered by the lock discipline + A-AFFINITY (induction over operations is a meta-argument).',
              ref='DESIGN.md §4 C09'),
+ 'C10': dict(cat='proof', tech='deductive: ghost invocation counters on the real Connection.defunct/error_all_requests/error_all_cp_sessions/send_msg/process_msg (decode-error path); interference of defunct() inside send_msg modelled at its unlocked read',
+             text='Exactly-once erroring of every outstanding handler (also when handlers raise, also on the helper-thread path), idempotence of defunct, refusal of later sends and no second delivery are postconditions for up to 3 (and 101) outstanding handlers. The check-then-register race of send_msg is a recorded known finding (KF-C10-send_msg-races-with-defunct).',
+             ref='DESIGN.md §4 C10'),
 }
 
 NA_REASON = {}
